@@ -588,6 +588,10 @@ TRIVIA_PROGRAMS = (
     'a = {\n    1: x,  # c1\n    # own\n    **u,\n    2: y,\n}\nb = (i  # ci\n     for i in j  # cj\n     if k)  # ck\n',
     'import a  # ca\nfrom b import (c,  # cc\n               d)  # cd\n\nglobal g  # cg\ndel p, q  # cdel\nassert a, m  # cas\n',
     '\tif a:\n\t\tx  # tabs\n\t\t# own\n\t\ty\n'.replace('\tif', 'if').replace('\n\t\t', '\n\t'),
+    # compound statements at the end of blocks of position-less parents (match_case, handlers)
+    'match s:\n    case 1:\n        a\n    case _:\n        if b:\n            c\n        for i in j:\n            d\n',
+    'try:\n    a\nexcept E:\n    if b:\n        c\nelse:\n    with w:\n        d\nfinally:\n    while x:\n        e\n',
+    'class K:\n    def m(self):\n        if a:\n            b\n        else:\n            for i in j:\n                c\n',
     # bodies on the header line
     'if a: b\nelif c: d\nelse: e', 'try: a\nexcept E: b\nelse: c\nfinally: d', 'for i in x: y\nelse: z', 'while a: b\nelse: c', 'with a: b  # c\nx = 1',
     'def f(): return 1\nclass C: x = 1\nasync def g(): await h', 'if a: b; c\nelif d: e; f  # cf\nelse: g; h',
